@@ -94,6 +94,12 @@ class FloatValue(Terminal):
         super().__init__(Rat.const(Fr(v)), (), f"lit{Fr(v)}")
 
 
+class ComplexValue(Terminal):
+    def __init__(self, re, im):
+        from ..absint import IMAG
+        super().__init__(Rat.const(Fr(re)) + Rat.const(Fr(im)) * Rat.var(IMAG), (), f"lit({re}+{im}j)")
+
+
 class Zero(Terminal):
     def __init__(self):
         super().__init__(Rat.const(0), (), "zero")
@@ -164,6 +170,28 @@ class MathFunction(Expr):
         super().__init__(Rat.var(f"fn[{_show(a.meaning)}]"), (a,))
 
 
+def _traversals(it):
+    """UFL's generic traversal helpers on the sample expressions"""
+    def post(e, seen=None):
+        seen = seen if seen is not None else []
+        for o in e.ufl_operands:
+            post(o, seen)
+        if e not in seen:
+            seen.append(e)
+        return seen
+
+    def terminals(e):
+        return [x for x in post(e) if x._ufl_is_terminal_]
+    for pre in ("", "ufl.corealg.traversal."):
+        it.overrides[pre + "traverse_unique_terminals"] = _PyCall(terminals)
+        it.overrides[pre + "unique_post_traversal"] = _PyCall(lambda e: post(e))
+        it.overrides[pre + "unique_pre_traversal"] = _PyCall(lambda e: list(reversed(post(e))))
+        it.overrides[pre + "traverse_terminals"] = _PyCall(terminals)
+    for pre in ("", "ufl.algorithms.", "ufl.algorithms.analysis."):
+        it.overrides[pre + "extract_coefficients"] = _PyCall(lambda e: [x for x in terminals(e) if isinstance(x, Coefficient)])
+        it.overrides[pre + "extract_arguments"] = _PyCall(lambda e: [x for x in terminals(e) if isinstance(x, Argument)])
+
+
 def linearise(roots):
     """post-order scalar graph of the given root expressions (one per component; a root may serve several components)"""
     nodes, out_edges, e2i = {}, {}, {}
@@ -224,6 +252,7 @@ def fact_driver(repo, res):
         it.overrides["conditional"] = _PyCall(lambda c, t, f_: Conditional(c, _as(t), _as(f_)))
         it.overrides["as_ufl"] = _PyCall(_as)
         it.overrides["logger"] = Node("Logger", info=_PyCall(lambda *a: None), debug=_PyCall(lambda *a: None))
+        _traversals(it)
 
         def analyse(e):
             t = e
@@ -333,6 +362,8 @@ def fact_driver(repo, res):
     scenario("bilinear: test functions first in node order", [(v0 * a) * u1 + v1 * (b * u0) + (v0 * u0) / d_], 2, [v0, v1, u0, u1])
     scenario("bilinear: repeated pair collected by the sum", [(a * u0) * v0 + (b * v0) * u0 + (u1 * v1)], 2, [v0, v1, u0, u1])
     scenario("bilinear: conjugated test function (sesquilinear form)", [(a * u0 + u1) * Conj(b * v0 + v1)], 2, [v0, v1, u0, u1])
+    scenario("bilinear: conjugated complex literal factor", [(a * u0) * Conj(ComplexValue(2, 3) * v0 + v1)], 2, [v0, v1, u0])
+    scenario("bilinear: conjugated literal-only product", [u0 * Conj(ComplexValue(0, 1) * v1)], 2, [v1, u0])
     cond = Condition()
     scenario("bilinear: conditional with arguments in both branches", [Conditional(cond, (a * u0) * v0 + u1 * v1, (b * u0) * v0) * g], 2, [v0, v1, u0, u1])
     scenario("bilinear: conditional with a zero branch", [Conditional(cond, Zero(), (b * u0) * v1)], 2, [v1, u0])
